@@ -311,6 +311,14 @@ func (d providerDup) GetTxnOperations(t *txn.SidetreeTxn) ([]*operation.Anchored
 		for _, o := range ops {
 			c := *o
 			dup = append(dup, &c)
+			// and a second operation for the same DID under another operation type
+			c2 := *o
+			if c2.Type == operation.TypeDeactivate {
+				c2.Type = operation.TypeUpdate
+			} else {
+				c2.Type = operation.TypeDeactivate
+			}
+			dup = append(dup, &c2)
 		}
 		ops = append(ops, dup...)
 	}
